@@ -444,7 +444,7 @@ func (i *interpreter) raceQuery(a, b access) string {
 	if f.IsFalse() {
 		return "unsat"
 	}
-	return ex.sol.Check(Lit{f, false})
+	return ex.sol.CheckObligation(Lit{f, false})
 }
 
 func init() {
